@@ -246,6 +246,32 @@ class Oracle:
         p.candidates = self.candidates(p.line)
         return p
 
+    # ---- name= proposals
+    def call_params(self, o):
+        """for an offset inside the parentheses of a call whose callee is a plain name bound exactly once in the
+        module, by a def: the names that may be passed by keyword; else None (callee not statically known)"""
+        best = None
+        for n in ast.walk(self.tree):
+            if isinstance(n, ast.Call) and isinstance(n.func, ast.Name):
+                a = self.starts[n.func.end_lineno - 1] + n.func.end_col_offset
+                b = self.starts[n.end_lineno - 1] + n.end_col_offset
+                if a < o < b and (best is None or a > best[0]):
+                    best = (a, n)
+        if best is None:
+            return None
+        name = best[1].func.id
+        defs = [n for n in ast.walk(self.tree) if isinstance(n, (ast.FunctionDef, ast.AsyncFunctionDef)) and n.name == name]
+        others = [n for n in ast.walk(self.tree)
+                  if (isinstance(n, ast.Name) and n.id == name and isinstance(n.ctx, (ast.Store, ast.Del)))
+                  or (isinstance(n, ast.ClassDef) and n.name == name)
+                  or (isinstance(n, ast.arg) and n.arg == name)
+                  or (isinstance(n, ast.alias) and (n.asname or n.name.split(".")[0]) == name)
+                  or (isinstance(n, ast.ExceptHandler) and n.name == name)]
+        if len(defs) != 1 or others:
+            return None
+        a = defs[0].args
+        return {p.arg for p in a.posonlyargs + a.args + a.kwonlyargs}
+
     # ---- visible names
     def visible(self, scope, x):
         """does identifier x denote something when used in `scope` (PyScope)"""
@@ -275,6 +301,33 @@ class Oracle:
         if q is not None and q.kind == "Class" and x in self.facts.instance_attrs(self.node_of(q)):
             return "class-self-attribute"
         return None
+
+    def kept_later_locals(self, c, names, line):
+        """later_locals=False: locals of c written only BELOW the cursor line that are proposed nevertheless.
+        Returns (unexplained, inherited) entries."""
+        unexplained, inherited = [], []
+        for x in sorted(names):
+            if c.resolve.get(x) is not c or x not in self.idents:
+                continue
+            sites = self.binding_sites(self.node_of(c), x)
+            if not sites or any(l <= line for (l, _k) in sites):
+                continue
+            outer = c.parent.resolve.get(x) if c.parent is not None else ("B" if x in PY_BUILTINS else None)
+            if outer is not None:
+                continue                 # the outer binding of the same name shows through
+            kinds = {k for (_l, k) in sites}
+            if "import" in kinds:
+                inherited.append(("later-local-kept", x, "C20:later-import-kept"))
+            elif kinds <= {"walrus", "annotation"}:
+                # no assignment with a node: walrus targets and bare annotations have no definition line
+                inherited.append(("later-local-kept", x, "C20:definition-line-unknown"))
+            else:
+                cause = self.attributed(x, c)
+                if cause:
+                    inherited.append(("later-local-kept", x, cause))
+                else:
+                    unexplained.append(("later-local-kept", x, sorted(kinds)))
+        return unexplained, inherited
 
     def judge_undotted(self, pos, proposals, later_locals, proposals_true=None):
         """proposals: set of (name, scope).  Returns (list of unexplained deviations, list of inherited causes)."""
@@ -312,6 +365,10 @@ class Oracle:
                 if cause is None and later_locals is False and self.dropped_by_value_line(c, x, pos.line):
                     cause = "C20:definition-line-of-value"
                 (inherited if cause else unexplained).append(("missing", x, cause))
+            if later_locals is False:
+                u2, i2 = self.kept_later_locals(c, names, pos.line)
+                unexplained.extend(u2)
+                inherited.extend(i2)
             if best is None or (len(unexplained), len(inherited)) < (len(best[0]), len(best[1])):
                 best = (unexplained, inherited, c)
         unexplained, inherited, c = best
@@ -442,7 +499,7 @@ class Oracle:
             cause = self.attributed(x, r)
         if cause:
             return None, cause
-        if got_line is None and kinds & {"walrus", "annotation"}:
+        if got_line is None and kinds and kinds <= {"walrus", "annotation", "augassign", "del"}:
             return None, "C20:definition-line-unknown"
         if got_line is not None and r is not None and not isinstance(r, str):
             # the line of the assigned VALUE of a statement whose target is on an earlier line
